@@ -81,6 +81,31 @@ func run(cfg lib.Cfg) error {
 		judge(sc, "corpus-cross-partition-switch")
 	}
 
+	// restarts that CHANGE batch size and concurrency between the moment a position is
+	// written and the reorg that unwinds it ("whatever batch size was in effect when the
+	// orphaned blocks were written"): larger -> smaller, smaller -> larger, -> 1
+	for i, c := range []struct {
+		shape           string
+		b0, c0, b1, c1  int
+		head, pre, post int
+		fork            uint64
+		newLen          int
+	}{
+		{"log", 4, 1, 2, 1, 8, 2, 8, 7, 4},  // position 8 written by blocks 5..8, unwound with batch 2; fork inside the batch
+		{"log", 4, 2, 1, 1, 8, 2, 12, 5, 6}, // the whole batch 5..8 orphaned, unwound with batch 1
+		{"tx", 6, 3, 2, 2, 12, 2, 10, 9, 6}, // two positions (6, 12); fork in the upper batch
+		{"tx", 5, 1, 3, 4, 10, 2, 8, 2, 11}, // fork below every position but the first batch
+		{"log", 2, 1, 5, 2, 8, 3, 6, 4, 7},  // smaller -> larger
+		{"trace", 3, 3, 1, 1, 9, 3, 14, 8, 4},
+	} {
+		sc := world(fmt.Sprintf("rebatch-corpus-%d-b%dc%d-to-b%dc%d", i, c.b0, c.c0, c.b1, c.c1), []string{c.shape}, c.b0, c.c0, c.head, uint64(61+i))
+		sc.Acts = append(rounds(1, c.pre), ts.Act{Do: "reconfig", K: c.b1, Len: c.c1}, ts.Act{Do: "reorg", Fork: c.fork, Len: c.newLen})
+		sc.Acts = append(sc.Acts, rounds(1, 2)...)
+		sc.Acts = append(sc.Acts, ts.Act{Do: "grow", K: 3})
+		sc.Acts = append(sc.Acts, rounds(1, c.post+4)...)
+		judge(sc, "rebatch-corpus")
+	}
+
 	// version switch at every node-call boundary of the step that follows a reorg
 	type sbase struct {
 		name        string
@@ -156,10 +181,20 @@ func run(cfg lib.Cfg) error {
 		if nre > 1 {
 			kind = "random-repeated-reorg"
 		}
+		rebatch := r.Intn(3) == 0
 		for k := 0; k < nre; k++ {
 			rd := r.Range(0, 3)
 			sc.Acts = append(sc.Acts, rounds(nig, rd)...)
 			pos = max(pos, min(h, pos+rd*batch))
+			if rebatch && r.Intn(3) != 0 {
+				// the process is restarted with another batch size / concurrency before the reorg arrives
+				batch = lib.Pick(r, []int{1, 1, 2, 3, 4, 6, max(1, batch-1), max(1, batch/2)})
+				sc.Acts = append(sc.Acts, ts.Act{Do: "reconfig", K: batch, Len: r.Range(1, 4)})
+				if r.Bool() {
+					sc.Acts = append(sc.Acts, rounds(nig, 1)...)
+					pos = max(pos, min(h, pos+batch))
+				}
+			}
 			// fork depth 1 .. 2*batch+1 below the position, replacement -2 .. +3 relative
 			depth := r.Range(1, 2*batch+1)
 			fork := max(1, pos-depth+1)
@@ -189,6 +224,9 @@ func run(cfg lib.Cfg) error {
 		sc.Acts = append(sc.Acts, ts.Act{Do: "grow", K: g})
 		h += g
 		sc.Acts = append(sc.Acts, rounds(nig, (h+batch)/batch+5)...)
+		if rebatch {
+			kind = "rebatch-" + kind
+		}
 		judge(sc, kind)
 	}
 	// the same through the real jrpc2.Client shared by the source's tasks (head,
